@@ -824,7 +824,16 @@ def closure_of(g, files):
     return wanted
 
 
+def monitor_resolved_after_regen(run, where, inv):
+    """command-line names are resolved against the manifest in force after the regeneration phase, never before it"""
+    if inv.result.startswith("err:") and "main_begin" not in inv.trace and inv.graphs and not inv.graphs[0].error:
+        msg = unhexs(inv.result[4:]).decode("utf-8", "replace")
+        if "unknown path requested" in msg:
+            run.report_failure(None, "a command-line name was refused (%s) before the manifest was brought up to date and reloaded" % msg[:80], where)
+
+
 def monitor_c18(run, where, inv, j, k, names, sel, adopt=False):
+    monitor_resolved_after_regen(run, where, inv)
     phs = walk_trace(inv, j, k)
     if not phs:
         return
